@@ -523,7 +523,15 @@ func (p *uPacketPacker) MarshalInitialPacketPayload(pl payload, v protocol.Versi
 	// parse crypto data
 	cryptoData, err := clienthellod.ReassembleCRYPTOFrames(qchframes)
 	if err != nil {
-		return nil, err
+		// [UQUIC] A retransmission can hold CRYPTO ranges that are not adjacent: two Initial
+		// datagrams were lost and the one between them was not (or a datagram and an earlier
+		// retransmission were lost together). Such frames are not one slice of the stream, so
+		// there is nothing a per-datagram builder could re-cut — but they are perfectly good
+		// CRYPTO frames at their true offsets. Failing here would close the connection over a
+		// loss pattern it can recover from; send them exactly as the packer produced them, as
+		// is done after a planned flight.
+		p.initialDatagramIdx++
+		return originalFrameBytes, nil
 	}
 
 	// [UQUIC] Compute baseOffset: the absolute QUIC crypto stream offset of cryptoData[0].
